@@ -17,8 +17,11 @@ edn_value_t* edn_read_metadata(edn_parser_t* parser) {
     /* Skip the ^ character */
     parser->current++;
 
-    /* Step 1: Parse the metadata value */
+    /* Step 1: Parse the metadata value (annotation and target are one level
+     * deeper, which bounds chains of ^a ^b ... markers) */
+    parser->depth++;
     edn_value_t* meta_value = edn_read_value(parser);
+    parser->depth--;
     if (meta_value == NULL || parser->error != EDN_OK) {
         if (parser->error == EDN_OK) {
             /* A closing delimiter where the annotation should be */
@@ -41,7 +44,9 @@ edn_value_t* edn_read_metadata(edn_parser_t* parser) {
     }
 
     /* Step 2: Parse the value to attach metadata to */
+    parser->depth++;
     edn_value_t* form = edn_read_value(parser);
+    parser->depth--;
     if (form == NULL || parser->error != EDN_OK) {
         if (parser->error == EDN_OK) {
             /* A closing delimiter where the annotated form should be */
